@@ -809,7 +809,7 @@ func cpuGen(c *Ctx) {
 			regs := regionRegs(rng, 0xd000, 0xdd00)
 			regs[8] = 0xdf80
 			regs[9] = 0xc100
-			w.Put(rig.runSeq(fmt.Sprintf("cpu-seq-%d", i), regs, 0xc100, prog, rng.Int63n(1<<30), 70))
+			w.Put(rig.runSeq(fmt.Sprintf("cpu-seq-%d", i), regs, 0xc100, prog, rng.Int63n(1<<30), 90))
 		}
 	}
 	if c.Want("mem") {
@@ -1099,6 +1099,21 @@ func genProgram(rng *rand.Rand, base int, n int) []int {
 			}
 		}
 	}
+	// EI directly in front of a conditional transfer: the instruction after EI is an instruction like any other. The run
+	// ends after it (the master enable is on from there on, which is outside this family's precondition).
+	if rng.Intn(2) == 0 {
+		at := base + len(code) + 1
+		switch rng.Intn(4) {
+		case 0:
+			code = append(code, 0xfb, []int{0x20, 0x28, 0x30, 0x38}[rng.Intn(4)], 0x00)
+		case 1:
+			code = append(code, 0xfb, []int{0xc2, 0xca, 0xd2, 0xda}[rng.Intn(4)], (at+3)&0xff, (at+3)>>8)
+		case 2:
+			code = append(code, 0xfb, []int{0xc4, 0xcc, 0xd4, 0xdc}[rng.Intn(4)], (at+3)&0xff, (at+3)>>8)
+		default:
+			code = append(code, 0xfb, []int{0xc0, 0xc8, 0xd0, 0xd8}[rng.Intn(4)])
+		}
+	}
 	// land on a NOP sled
 	for i := 0; i < 8; i++ {
 		code = append(code, 0x00)
@@ -1143,7 +1158,7 @@ func (r *cpuRig) runSeq(id string, regs []int, base int, code []int, dseed int64
 			break
 		}
 		ob := []int{int(m.M.VerifPeek(uint16(pc))), int(m.M.VerifPeek(uint16(pc + 1))), int(m.M.VerifPeek(uint16(pc + 2)))}
-		if undefinedOps[ob[0]] || ob[0] == 0x10 || ob[0] == 0x76 || ob[0] == 0xfb {
+		if undefinedOps[ob[0]] || ob[0] == 0x10 || ob[0] == 0x76 {
 			break
 		}
 		if m.P.ReadLCDC()&0x80 != 0 || m.I.Enabled() {
